@@ -178,6 +178,14 @@ func extractTarDirectory(dirPath, dirName string, r io.Reader, buf []byte, prese
 		// Create content
 		switch header.Typeflag {
 		case tar.TypeReg:
+			// do not write through a symbolic link created by a previous
+			// entry: its target is only validated lexically and may resolve
+			// outside of the directory. Replace the link instead.
+			if info, lerr := os.Lstat(filePath); lerr == nil && info.Mode()&os.ModeSymlink != 0 {
+				if err = os.Remove(filePath); err != nil {
+					return err
+				}
+			}
 			err = writeFile(filePath, tr, header.FileInfo().Mode(), buf)
 		case tar.TypeDir:
 			err = os.MkdirAll(filePath, header.FileInfo().Mode())
